@@ -29,7 +29,7 @@ def exhaustive(tier):
 
 
 def required(tier):
-    return ["all_32_lane_sets", "gap:1", "chord_as_last_group", "interleave:between", "group_lines:7", "group_lines:1", "concurrent_stage"]
+    return ["all_32_lane_sets", "gap:1", "chord_as_last_group", "interleave:between", "group_lines:7", "group_lines:1", "concurrent_stage", "ticks_around_2^31..10^12"]
 
 
 def shards(tier, seed):
@@ -109,6 +109,9 @@ def run_shard(shard, rec, tier, seed):
             rng = harness.rng_for(seed, ID, shard["name"], i)
             if shard["kind"] == "stress":
                 case = gen.gen_chart(rng, "stress", n_tempos=20, n_tracks=1, n_groups=rng.choice([2000, 5000]), n_globals=0)
+            elif i % 13 == 5:
+                case = gen.huge_tick_chart(rng)
+                rec.cls("ticks_around_2^31..10^12")
             else:
                 case = gen.gen_chart(rng, "hostile" if i % 2 else "realistic", n_tracks=rng.choice([1, 2, 3]),
                                      n_groups=rng.choice([1, 2, 5, 30, 120, 400]), pad=i % 3 == 0)
